@@ -54,6 +54,11 @@ func (p *ebcdic1047Prefixer) DecodeLength(maxLen int, data []byte) (int, int, er
 		return 0, 0, fmt.Errorf("length [%s] is not a valid integer length field", string(decodedData))
 	}
 
+	// length should be positive
+	if dataLen < 0 {
+		return 0, 0, fmt.Errorf(invalidLength, dataLen)
+	}
+
 	if dataLen > maxLen {
 		return 0, 0, fmt.Errorf(dataLengthIsLargerThanMax, dataLen, maxLen)
 	}
